@@ -20,6 +20,7 @@ package main
 
 import (
 	"fmt"
+	"regexp"
 	"go/ast"
 	"go/constant"
 	"go/token"
@@ -56,6 +57,9 @@ var glTargets = []glTarget{
 	{pkg: "service", recv: "cipherList", name: "SnapshotForClientIP", listElem: "CipherEntry"},
 	{pkg: "service", recv: "cipherList", name: "MarkUsedByClientIP", listElem: "CipherEntry"},
 	{pkg: "service", recv: "cipherList", name: "Update", listElem: "CipherEntry"},
+	{pkg: "service", recv: "", name: "MakeCipherEntry", opaque: map[string]bool{"NewServerSaltGenerator": true}},
+	{pkg: "service", recv: "", name: "findAccessKeyUDP", listElem: "CipherEntry", opaque: map[string]bool{"Unpack": true}, drop: map[string]bool{"debugUDP": true}},
+	{pkg: "service", recv: "", name: "drainErrToString"},
 	{pkg: "service", recv: "", name: "findEntry", listElem: "CipherEntry", opaque: map[string]bool{"Unpack": true}, drop: map[string]bool{"debugTCP": true}},
 	{pkg: "service/metrics", recv: "measuredConn", name: "Read"},
 	{pkg: "service/metrics", recv: "measuredConn", name: "Write"},
@@ -97,6 +101,8 @@ type glFn struct {
 	alias     map[types.Object]glAlias // pointer local -> where its object lives (a map element)
 	ptrLocal  map[types.Object]string    // pointer locals with a nil flag: name of the flag
 	elemAlias map[types.Object]*ast.Ident // pointer local obtained by e.Value.(*T): the element variable e
+	errAs     map[types.Object]string // interface view of an error value (from err.(I)): the error expression it stands for
+	fnEff     bool // calls on opaque (interface) parameters are recorded in a function-level effect log, returned last
 	funcLits  map[types.Object]*ast.FuncLit // locals bound to a function literal (only ever handed to sync.Once.Do)
 	used    map[string]bool
 	g       *golean
@@ -444,6 +450,10 @@ func (f *glFn) expr(e ast.Expr) string {
 			// package-level variable
 			if v.Pkg().Name() == "net" && v.Name() == "privateNetworks" {
 				return "OutlineModel.Gen.privateNets"
+			}
+			if lt := f.leanType(v.Type()); strings.HasPrefix(lt, "(Opaque ") {
+				f.addExtra(lid(v.Name()), lt) // a package-level object the function only hands on
+				return lid(v.Name())
 			}
 			return f.fail(e, "package variable %s has no meaning in the prelude", v.Name())
 		}
@@ -894,6 +904,11 @@ func (f *glFn) call(c *ast.CallExpr, value bool) string {
 			pname := lid(strings.ReplaceAll(rn, ".", "_") + "_" + fn.Name())
 			ats := []string{f.leanType(f.typeOf(sel.X))}
 			as := []string{f.expr(sel.X)}
+			if id, ok := sel.X.(*ast.Ident); ok {
+				if ev, ok := f.errAs[f.objOf(id)]; ok {
+					ats[0], as[0] = "(Option String)", ev // a method of an error seen through an interface: a function of the error
+				}
+			}
 			for i := 0; i < sig.Params().Len(); i++ {
 				ats = append(ats, f.leanType(sig.Params().At(i).Type()))
 				as = append(as, f.expr(c.Args[i]))
@@ -931,6 +946,19 @@ func (f *glFn) call(c *ast.CallExpr, value bool) string {
 				if root == "" {
 					return f.fail(c, "effect on a non-variable")
 				}
+				if strings.HasPrefix(f.rootStruct(sel.X), "(Opaque ") {
+					// the object itself is opaque (an interface parameter): the call goes to the function's own effect log
+					var vals []string
+					for _, a := range c.Args {
+						at, ok := f.atoms(f.expr(a), f.typeOf(a))
+						if !ok {
+							return f.fail(c, "effect argument of type %s", f.typeOf(a))
+						}
+						vals = append(vals, at)
+					}
+					f.fnEff = true
+					return "eff__ := eff__ ++ [{ name := " + leanStr(rn+"."+fn.Name()) + ", args := [], vals := [[Atom.tok (" + f.expr(sel.X) + ").val], " + strings.Join(vals, ", ") + "] }]"
+				}
 				var as []string
 				for _, a := range c.Args {
 					if f.leanType(f.typeOf(a)) != "Int" {
@@ -940,11 +968,17 @@ func (f *glFn) call(c *ast.CallExpr, value bool) string {
 				}
 				f.g.effs[f.rootStruct(sel.X)] = true
 				return lid(root) + " := { " + lid(root) + " with eff := " + lid(root) + ".eff ++ [{ name := " + leanStr(fn.Name()) + ", args := [" + strings.Join(as, ", ") + "] }] }"
+
 			}
 			// used result: a parameter function taking the interface token
 			pname := lid(rn + "_" + fn.Name())
 			ats := []string{f.leanType(f.typeOf(sel.X))}
 			as := []string{f.expr(sel.X)}
+			if id, ok := sel.X.(*ast.Ident); ok {
+				if ev, ok := f.errAs[f.objOf(id)]; ok {
+					ats[0], as[0] = "(Option String)", ev // a method of an error seen through an interface: a function of the error
+				}
+			}
 			for i := 0; i < sig.Params().Len(); i++ {
 				ats = append(ats, f.leanType(sig.Params().At(i).Type()))
 				as = append(as, f.expr(c.Args[i]))
@@ -1114,6 +1148,8 @@ func (f *glFn) atoms(e string, t types.Type) (string, bool) {
 		return "[Atom.bool " + e + "]", true
 	case strings.HasPrefix(lt, "(Opaque "):
 		return "[Atom.tok (" + e + ").val]", true
+	case strings.HasPrefix(lt, "(ListElem "):
+		return "[Atom.tok (" + e + ").id]", true
 	}
 	if st, ok := derefT(t).Underlying().(*types.Struct); ok && isRepoType(derefT(t)) {
 		var parts []string
@@ -1397,6 +1433,19 @@ func (f *glFn) stmt(s ast.Stmt, ind int) {
 			if ta, ok := x.Rhs[0].(*ast.TypeAssertExpr); ok && ta.Type != nil {
 				src := f.leanType(f.typeOf(ta.X))
 				dst := f.leanType(f.p.TypesInfo.TypeOf(ta.Type))
+				if src == "(Option String)" && strings.HasPrefix(dst, "(Opaque ") {
+					// err.(net.Error): whether the error implements the interface is a parameter; so is what its methods answer
+					pname := "implements_" + strings.NewReplacer("(Opaque \"", "", "\")", "", ".", "_").Replace(dst)
+					f.addExtra(pname, "(Option String) → Bool")
+					xv := f.expr(ta.X)
+					if f.errAs == nil {
+						f.errAs = map[types.Object]string{}
+					}
+					f.errAs[f.objOf(x.Lhs[0])] = xv
+					f.emit(ind, f.defOrAssign(x, 0, "(⟨0⟩ : "+dst+")"))
+					f.emit(ind, f.defOrAssign(x, 1, "("+pname+" "+xv+")"))
+					return
+				}
 				if strings.HasPrefix(src, "(Opaque ") && strings.HasPrefix(dst, "(Opaque ") {
 					pname := "implements_" + strings.NewReplacer("(Opaque \"", "", "\")", "", ".", "_").Replace(dst)
 					f.addExtra(pname, src+" → Bool")
@@ -1476,7 +1525,17 @@ func (f *glFn) stmt(s ast.Stmt, ind int) {
 			}
 		}
 		if len(x.Lhs) > 1 {
-			f.fail(s, "parallel assignment")
+			// a, b := e1, e2: the right-hand sides are evaluated before any assignment
+			var tmps []string
+			for i := range x.Rhs {
+				f.tmp++
+				t := fmt.Sprintf("t__%d", f.tmp)
+				f.emit(ind, "let "+t+" := "+f.exprAs(x.Rhs[i], f.typeOf(x.Lhs[i])))
+				tmps = append(tmps, t)
+			}
+			for i := range x.Lhs {
+				f.emit(ind, f.defOrAssign(x, i, tmps[i]))
+			}
 			return
 		}
 		f.emit(ind, f.defOrAssign(x, 0, f.exprAs(x.Rhs[0], f.typeOf(x.Lhs[0]))))
@@ -1551,6 +1610,38 @@ func (f *glFn) stmt(s ast.Stmt, ind int) {
 		if !f.sameAlias(afterThen, !endsInReturn(x.Body)) {
 			f.fail(x, "a pointer local lives in different places after the two branches")
 		}
+	case *ast.SwitchStmt:
+		if x.Tag != nil || x.Init != nil {
+			f.fail(s, "switch with a tag or an init statement")
+			return
+		}
+		first := true
+		var deflt *ast.CaseClause
+		for _, cc := range x.Body.List {
+			cl := cc.(*ast.CaseClause)
+			if cl.List == nil {
+				deflt = cl
+				continue
+			}
+			var conds []string
+			for _, e := range cl.List {
+				conds = append(conds, f.expr(e))
+			}
+			kw := "else if "
+			if first {
+				kw, first = "if ", false
+			}
+			f.emit(ind, kw+strings.Join(conds, " || ")+" then")
+			f.block(cl.Body, ind+1)
+		}
+		if deflt != nil {
+			if first {
+				f.block(deflt.Body, ind)
+			} else {
+				f.emit(ind, "else")
+				f.block(deflt.Body, ind+1)
+			}
+		}
 	case *ast.BranchStmt:
 		if x.Tok == token.CONTINUE && x.Label == nil {
 			f.emit(ind, "continue")
@@ -1581,7 +1672,7 @@ func (f *glFn) stmt(s ast.Stmt, ind int) {
 		if f.inLit {
 			f.fail(x, "return inside a function literal")
 		}
-		f.emit(ind, "return "+tuple(parts))
+		f.emit(ind, "return "+retMark(parts))
 	case *ast.RangeStmt:
 		coll := f.expr(x.X)
 		switch u := f.typeOf(x.X).Underlying().(type) {
@@ -1848,6 +1939,28 @@ func (f *glFn) sameAlias(other map[types.Object]glAlias, otherFallsThrough bool)
 	return true
 }
 
+// retMark keeps the components of a return apart until it is known whether the function has an effect log of its own
+func retMark(parts []string) string { return "⟪" + strings.Join(parts, "⟫⟪") + "⟫" }
+
+var retRe = regexp.MustCompile(`⟪.*⟫`)
+
+func (f *glFn) finishBody(body string) string {
+	return retRe.ReplaceAllStringFunc(body, func(m string) string {
+		inner := strings.TrimSuffix(strings.TrimPrefix(m, "⟪"), "⟫")
+		var parts []string
+		if inner != "" || strings.Contains(m, "⟪⟫") && false {
+			parts = strings.Split(inner, "⟫⟪")
+		}
+		if m == "⟪⟫" {
+			parts = nil
+		}
+		if f.fnEff {
+			parts = append(parts, "eff__")
+		}
+		return tuple(parts)
+	})
+}
+
 func tuple(parts []string) string {
 	switch len(parts) {
 	case 0:
@@ -1968,7 +2081,7 @@ func (f *glFn) translate() {
 							parts = append(parts, f.g.zero(sig.Results().At(i).Type(), f.t.strBytes))
 						}
 					}
-					f.emit(1, "return "+tuple(parts)+"  -- unreachable: the panic above ends the function")
+					f.emit(1, "return "+retMark(parts)+"  -- unreachable: the panic above ends the function")
 				}
 			}
 		}
@@ -1979,7 +2092,7 @@ func (f *glFn) translate() {
 		for _, io := range f.inouts {
 			parts = append(parts, lid(io))
 		}
-		f.emit(1, "return "+tuple(parts))
+		f.emit(1, "return "+retMark(parts))
 	}
 }
 
@@ -2006,9 +2119,20 @@ func (f *glFn) header() string {
 			}
 		}
 	}
-	h := "def " + f.leanName() + " " + strings.Join(ps, " ") + " : Option (" + f.retTyp + ") := do\n"
+	rt := f.retTyp
+	if f.fnEff {
+		if rt == "Unit" {
+			rt = "List Eff"
+		} else {
+			rt += " × List Eff"
+		}
+	}
+	h := "def " + f.leanName() + " " + strings.Join(ps, " ") + " : Option (" + rt + ") := do\n"
 	for _, m := range muts {
 		h += "  let mut " + m + " := " + m + "\n"
+	}
+	if f.fnEff {
+		h += "  let mut eff__ : List Eff := []  -- calls on interface parameters, in order\n"
 	}
 	return h
 }
@@ -2127,7 +2251,7 @@ func genCode() {
 			out.p("def %s.onNil : %s := %s", f.leanName(), strings.TrimPrefix(f.retTyp, f.leanType(f.p.TypesInfo.Defs[f.fd.Name].Type().(*types.Signature).Recv().Type())+" × "), f.nilRet)
 		}
 		out.b.WriteString(f.header())
-		out.b.WriteString(f.body.String())
+		out.b.WriteString(f.finishBody(f.body.String()))
 	}
 	out.p("")
 	out.p("end OutlineModel.Gen.Code")
